@@ -85,10 +85,17 @@ func handCases(prop, tier string, seed uint64) []Case {
 		if init == 10241 {
 			init = cfg.RS*512 + 1
 		}
+		big := i%25 == 24 // size thresholds: pipe and copy buffers, int conversions
+		if big {
+			init = []int{70001, 1<<20 + 5, 300000}[r.Intn(3)]
+		}
 		if init < 0 || r.Intn(3) == 0 {
 			fl |= os.O_CREATE
 		}
 		p := handP{Cfg: cfg, Init: init, Flag: fl, Steps: steps/2 + r.Intn(steps/2+1)}
+		if i%40 == 39 {
+			p.Steps *= 4 // long sequences on one handle
+		}
 		pb, _ := json.Marshal(p)
 		cases = append(cases, Case{ID: fmt.Sprintf("c14-s%05d", i), Seed: subSeed(seed, prop, tier, fmt.Sprint(i)), Kind: "random", P: pb})
 	}
@@ -193,8 +200,11 @@ func handRun(prop, tier string, c Case, w *Worker) (res Result) {
 	}
 	pickN := func() int {
 		s := int(size())
-		c := []int{0, 1, s - 1, s, s + 7, 100, 513}
+		c := []int{0, 1, s - 1, s, s + 7, 100, 513, 40000, 1 << 20}
 		n := c[r.Intn(len(c))]
+		if n >= 40000 && s < 40000 && r.Intn(4) != 0 {
+			n = 513
+		}
 		if n < 0 {
 			n = 0
 		}
@@ -215,6 +225,9 @@ func handRun(prop, tier string, c Case, w *Worker) (res Result) {
 				op.N, op.Off = pickN(), pickOff()
 			case "seek":
 				op.Wh = r.Intn(3)
+				if r.Intn(40) == 0 {
+					op.Wh = 7 + r.Intn(3) // invalid whence (3 and 4 are SEEK_DATA / SEEK_HOLE on Linux): must fail
+				}
 				tgt := pickOff()
 				switch op.Wh {
 				case 0:
@@ -223,6 +236,9 @@ func handRun(prop, tier string, c Case, w *Worker) (res Result) {
 					op.Off = tgt - mh.Pos
 				case 2:
 					op.Off = tgt - size()
+				default:
+					op.Off = tgt
+					tgt = 0
 				}
 				// steer around open findings: in read mode a seek past the end loses the position; the memory write cache cannot hold a cursor past the end
 				dst := tgt
